@@ -4,6 +4,7 @@ import (
 	"encoding/binary"
 	"encoding/hex"
 	"fmt"
+	"strings"
 
 	of "github.com/contiv/libOpenflow/openflow13"
 	"github.com/contiv/libOpenflow/protocol"
@@ -128,13 +129,15 @@ func packetInWire(frame []byte) []byte {
 }
 
 type c08Run struct {
-	c        *fw.Ctx
-	dec      string
-	f        func([]byte) error
-	recorded int
-	stop     bool
-	hasBase  bool
-	surv     [][]byte
+	c           *fw.Ctx
+	dec         string
+	f           func([]byte) error
+	recorded    int
+	stop        bool
+	hasBase     bool
+	surv        [][]byte
+	survSpecial int
+	seenClass   map[string]int
 }
 
 func (t *c08Run) run(class string, in []byte) bool {
@@ -192,8 +195,20 @@ func (t *c08Run) run(class string, in []byte) bool {
 		c.Set("errors", t.dec+": "+e)
 	} else {
 		c.Count("accepted_variants", 1)
-		if t.hasBase && len(t.surv) < 4 && class != "valid" && c.Index%2 == 0 {
-			t.surv = append(t.surv, append([]byte(nil), in...))
+		if t.hasBase && class != "valid" && c.Index%2 == 0 {
+			// second-generation bases: the first few accepted variants, and a few more from the dictionary-driven
+			// and padding classes (they are the ones that put an input into a state a later check branches on)
+			special := strings.HasPrefix(class, "resize") || class == "zerotail" || strings.HasPrefix(class, "dict") || strings.HasPrefix(class, "token")
+			if len(t.surv) < 4 && !special {
+				t.surv = append(t.surv, append([]byte(nil), in...))
+			} else if special && t.survSpecial < 6 && t.seenClass[class] < 2 {
+				if t.seenClass == nil {
+					t.seenClass = map[string]int{}
+				}
+				t.seenClass[class]++
+				t.survSpecial++
+				t.surv = append(t.surv, append([]byte(nil), in...))
+			}
 		}
 	}
 	return true
@@ -280,9 +295,12 @@ func c08Eval(c *fw.Ctx, data any) {
 	}
 	surv := t.surv
 	t.surv = nil
-	for _, s := range surv {
+	for i, s := range surv {
 		c.Count("second_generation_bases", 1)
 		o2 := gen.HostileOpt{Fix: o.Fix, MaxPos: 96, Random: 8, MaxExtend: len(s) + 64}
+		if i >= 4 {
+			o2.MaxPos, o2.Random = 40, 4
+		}
 		gen.Hostile(s, r, o2, func(class string, in []byte) bool { return t.run("2nd:"+class, in) })
 		if t.stop {
 			return
